@@ -78,6 +78,99 @@ func (ps *brSimple) put(w *bitW, s int) {
 	w.code(c[0], uint(c[1]))
 }
 
+var brBlkBase = []int{1, 5, 9, 13, 17, 25, 33, 41, 49, 65, 81, 97, 113, 145, 177, 209, 241, 305, 369, 497, 753, 1265, 2289, 4385, 8481, 16673}
+var brBlkExtra = []uint{2, 2, 2, 2, 3, 3, 3, 3, 4, 4, 4, 4, 5, 5, 5, 5, 6, 6, 7, 8, 9, 10, 11, 12, 13, 24}
+
+// brCat is one block category (literals, commands or distances) with 1..4 block types.
+type brCat struct {
+	n, bt, prev, left int
+	types, counts     *brSimple
+	tsyms, csyms      []int
+}
+
+func (c *brCat) header(w *bitW, r *Rand) {
+	c.bt, c.prev = 0, 1
+	if c.n < 2 {
+		w.bit(0)
+		return
+	}
+	x := c.n - 1 // NBLTYPES = (1 << k) + 1 + extra
+	k := uint(0)
+	for x>>(k+1) > 0 {
+		k++
+	}
+	w.bit(1)
+	w.bits(uint64(k), 3)
+	w.bits(uint64(x-(1<<k)), k)
+	var pool []int
+	for i := 0; i < c.n+2; i++ {
+		pool = append(pool, i)
+	}
+	c.tsyms = pickDistinct(r, 1+r.Intn(4), pool)
+	if r.Intn(3) != 0 { // make "previous type" (code 0) available often
+		has := false
+		for _, t := range c.tsyms {
+			has = has || t == 0
+		}
+		if !has {
+			c.tsyms[0] = 0
+		}
+	}
+	c.types = writeSimple(w, r, c.n+2, c.tsyms)
+	c.csyms = pickDistinct(r, 1+r.Intn(3), []int{0, 0, 1, 2, 3, 4, 8})
+	c.csyms = dedup(c.csyms)
+	c.counts = writeSimple(w, r, 26, c.csyms)
+	c.left = c.readCount(w, r)
+}
+
+func dedup(a []int) []int {
+	var out []int
+	for _, x := range a {
+		dup := false
+		for _, y := range out {
+			dup = dup || x == y
+		}
+		if !dup {
+			out = append(out, x)
+		}
+	}
+	return out
+}
+
+func (c *brCat) readCount(w *bitW, r *Rand) int {
+	cs := c.csyms[r.Intn(len(c.csyms))]
+	c.counts.put(w, cs)
+	ex := r.Intn(1 << brBlkExtra[cs])
+	w.bits(uint64(ex), brBlkExtra[cs])
+	return brBlkBase[cs] + ex
+}
+
+// tick is called before every element of the category is coded.
+func (c *brCat) tick(w *bitW, r *Rand) {
+	if c.n < 2 {
+		return
+	}
+	if c.left == 0 {
+		t := c.tsyms[r.Intn(len(c.tsyms))]
+		c.types.put(w, t)
+		nb := 0
+		switch t {
+		case 0:
+			nb = c.prev
+		case 1:
+			nb = c.bt + 1
+		default:
+			nb = t - 2
+		}
+		if nb >= c.n {
+			nb -= c.n
+		}
+		c.prev, c.bt = c.bt, nb
+		c.left = c.readCount(w, r)
+	}
+	c.left--
+}
+
 func pickDistinct(r *Rand, n int, pool []int) []int {
 	p := append([]int(nil), pool...)
 	for i := range p {
@@ -129,7 +222,7 @@ func synthBrotli(r *Rand, k int) []byte {
 		} else {
 			w.bit(0)
 		}
-		if !last && kind == 1 { // metadata meta-block
+		if kind == 1 { // metadata meta-block (also legal as the last one)
 			w.bits(3, 2)
 			w.bit(0)
 			n := r.Intn(3)
@@ -147,6 +240,9 @@ func synthBrotli(r *Rand, k int) []byte {
 			if n == 0 {
 				w.align()
 			}
+			if last {
+				break
+			}
 			continue
 		}
 		if !last && kind == 2 { // uncompressed
@@ -163,16 +259,22 @@ func synthBrotli(r *Rand, k int) []byte {
 		}
 		// compressed meta-block: the commands are generated first, MLEN is their total
 		hw, dw := &bitW{}, &bitW{}
-		hw.bit(0) // one block type per category
-		hw.bit(0)
-		hw.bit(0)
+		catL, catI, catD := &brCat{n: 1}, &brCat{n: 1}, &brCat{n: 1}
+		for _, c := range []*brCat{catL, catI, catD} {
+			if r.Intn(3) == 0 {
+				c.n = 2 + r.Intn(3)
+			}
+			c.header(hw, r)
+		}
 		npostfix := r.Intn(4)
 		ndirect := r.Intn(16)
 		hw.bits(uint64(npostfix), 2)
 		hw.bits(uint64(ndirect), 4)
 		ndirect <<= uint(npostfix)
-		hw.bits(uint64(r.Intn(4)), 2) // context mode
-		hw.bit(0)                    // NTREESL = 1
+		for i := 0; i < catL.n; i++ {
+			hw.bits(uint64(r.Intn(4)), 2) // context mode per literal block type
+		}
+		hw.bit(0) // NTREESL = 1
 		hw.bit(0)                    // NTREESD = 1
 		lits := pickDistinct(r, 1+r.Intn(4), []int{'a', 'b', ' ', 'e', 0xe0, 0xa4, 0, 255, 'T'})
 		pl := writeSimple(hw, r, 256, lits)
@@ -190,7 +292,10 @@ func synthBrotli(r *Rand, k int) []byte {
 				cmds = append(cmds, c)
 			}
 		}
-		pc := writeSimple(hw, r, 704, cmds)
+		pcs := make([]*brSimple, catI.n)
+		for i := range pcs {
+			pcs[i] = writeSimple(hw, r, 704, cmds)
+		}
 		dalpha := 16 + ndirect + (48 << uint(npostfix))
 		var dpool []int
 		for i := 0; i < 16; i++ {
@@ -207,7 +312,8 @@ func synthBrotli(r *Rand, k int) []byte {
 			c := cmds[r.Intn(len(cmds))]
 			cell := brCells[c>>6]
 			ic, cc := cell[0]+(c>>3)&7, cell[1]+c&7
-			pc.put(dw, c)
+			catI.tick(dw, r)
+			pcs[catI.bt].put(dw, c)
 			ex := r.Intn(1 << min(brInsExtra[ic], 6))
 			dw.bits(uint64(ex), brInsExtra[ic])
 			ins := brInsBase[ic] + ex
@@ -215,6 +321,7 @@ func synthBrotli(r *Rand, k int) []byte {
 			dw.bits(uint64(ex), brCopyExtra[cc])
 			cp := brCopyBase[cc] + ex
 			for i := 0; i < ins; i++ {
+				catL.tick(dw, r)
 				pl.put(dw, lits[r.Intn(len(lits))])
 			}
 			produced += ins
@@ -276,6 +383,7 @@ func synthBrotli(r *Rand, k int) []byte {
 						}
 					}
 				}
+				catD.tick(dw, r)
 				pd.put(dw, ch.sym)
 				if ch.sym >= 16+ndirect {
 					dw.bits(uint64(ch.extra), uint(1+(ch.sym-ndirect-16)>>uint(npostfix+1)))
